@@ -87,6 +87,9 @@ type RangeAgg struct {
 	OffsetNS int64
 	Param    *float64
 	Grouping *Grouping
+	// RangeText / OffsetText, when set, are the spellings of the range and the offset in the query text (they must
+	// denote RangeNS / OffsetNS): a duration can be written in several ways.
+	RangeText, OffsetText string
 }
 
 func durText(ns int64) string {
@@ -123,9 +126,16 @@ func (e *RangeAgg) Text() string {
 			sb.WriteString(" | unwrap " + e.Unwrap)
 		}
 	}
-	sb.WriteString(" [" + durText(e.RangeNS) + "]")
+	rt, ot := durText(e.RangeNS), durText(e.OffsetNS)
+	if e.RangeText != "" {
+		rt = e.RangeText
+	}
+	if e.OffsetText != "" {
+		ot = e.OffsetText
+	}
+	sb.WriteString(" [" + rt + "]")
 	if e.OffsetNS != 0 {
-		sb.WriteString(" offset " + durText(e.OffsetNS))
+		sb.WriteString(" offset " + ot)
 	}
 	sb.WriteString(")")
 	if e.Grouping != nil {
@@ -363,6 +373,7 @@ func evalRange(e *RangeAgg, data []mockq.Rec, t int64) Value {
 		if !matchSel(labels, e.Sel) {
 			continue
 		}
+		line := r.Line // the line as the pipeline hands it on (what the bytes functions weigh)
 		if len(e.Stages) > 0 {
 			ent := &Entry{TS: r.TS, Line: r.Line, Labels: labels}
 			keep := true
@@ -377,6 +388,7 @@ func evalRange(e *RangeAgg, data []mockq.Rec, t int64) Value {
 				continue
 			}
 			labels = ent.Labels
+			line = ent.Line
 		}
 		var v float64
 		switch e.Op {
@@ -394,7 +406,7 @@ func evalRange(e *RangeAgg, data []mockq.Rec, t int64) Value {
 				v = f
 			}
 		case "bytes_over_time", "bytes_rate":
-			v = float64(len(r.Line))
+			v = float64(len(line))
 		default:
 			s, ok := labels[e.Unwrap]
 			if !ok {
